@@ -57,7 +57,7 @@ def writeHeader (mem : Mem) (resultPointer next inode nameLength fileType : Nat)
 
 /-- outcome of the loop: early `return wasiErrno()` or fall-through with (stream index, bufferUsed, memory) -/
 inductive LoopRes
-  | ret (errno : Nat) (i : Nat)
+  | ret (errno : Nat) (i : Nat) (mem : Mem)
   | fall (i : Nat) (used : Nat) (mem : Mem)
   deriving Repr, DecidableEq
 
@@ -75,13 +75,13 @@ def rdLoop (pm : Nat) (d : Dir) (path : Bytes) (bufPtr bufLen : Nat) :
       let bufferRemaining := u32 (bufLen - used)
       let resultPointer := u32 (bufPtr + used)
       let tell := d.loc (i + 1)
-      if tell < 0 then .val (.ret hostFailErrno (i + 1)) else
+      if tell < 0 then .val (.ret hostFailErrno (i + 1) mem) else
       let next := tell.toNat
       let nameLength := e.name.length
       let ft0 := fileTypeFromDT e.dtype
       -- lstat fallback: strcpy(nativePath, path); strcat "/" ; strcat name   into char[PATH_MAX]
       if ft0 = Gen.WasiPath.fileTypeUnknown ∧ ¬ (path.length + 1 + nameLength < pm) then .ub .bufferOverflow else
-      if ft0 = Gen.WasiPath.fileTypeUnknown ∧ e.lstat = none then .val (.ret hostFailErrno (i + 1)) else
+      if ft0 = Gen.WasiPath.fileTypeUnknown ∧ e.lstat = none then .val (.ret hostFailErrno (i + 1) mem) else
       let fileType := if ft0 = Gen.WasiPath.fileTypeUnknown then e.lstat.getD 0 else ft0
       if Gen.WasiPath.headerDoesNotFit bufferRemaining then .val (.fall (i + 1) bufLen mem) else do
       let mem ← writeHeader mem resultPointer next e.ino nameLength fileType
@@ -123,15 +123,15 @@ def fdReaddir (pm : Nat) (d : Dir) (path : Bytes) (dirSt : Option Pos) (mem : Me
     let p := if Gen.WasiPath.seekWhenCookie cookie then seekdir d (cookieToLong cookie) else p0
     do
     let mem ← i32Store mem usedPtr 0
-    if ¬ Gen.WasiPath.loopContinues 0 bufLen then do
-      let mem ← i32Store mem usedPtr 0
-      .val (.done ⟨Gen.WasiPath.errnoSuccess, some p, mem⟩)
-    else
     match p with
-    | .unspec => .val .unspecified
+    | .unspec =>
+      if Gen.WasiPath.loopContinues 0 bufLen then .val .unspecified      -- readdir at an unspecified position
+      else do
+        let mem ← i32Store mem usedPtr 0
+        .val (.done ⟨Gen.WasiPath.errnoSuccess, some p, mem⟩)
     | .at i => do
       match ← rdLoop pm d path bufPtr bufLen (d.entries.drop i) i 0 mem with
-      | .ret e i' => .val (.done ⟨e, some (.at i'), mem⟩)
+      | .ret e i' mem => .val (.done ⟨e, some (.at i'), mem⟩)
       | .fall i' used mem => do
         let mem ← i32Store mem usedPtr used
         .val (.done ⟨Gen.WasiPath.errnoSuccess, some (.at i'), mem⟩)
